@@ -525,3 +525,22 @@ func valueLeaves(c *core.Ctx, v ssa.Value) []string {
 func closuresOf(fn *ssa.Function) []*ssa.Function {
 	return append(append([]*ssa.Function{}, fn.AnonFuncs...), core.AliasedClosures(fn)...)
 }
+
+// bindToCaller: a parameter of a helper is read as the argument the caller passes for it (first static call site of the
+// helper in caller); anything else is returned unchanged.
+func bindToCaller(v ssa.Value, caller *ssa.Function) ssa.Value {
+	p, ok := core.Strip(v).(*ssa.Parameter)
+	if !ok || p.Parent() == caller || p.Parent() == nil {
+		return v
+	}
+	h := p.Parent()
+	for _, call := range callsOfFn(caller, h) {
+		args := core.CallArgs(call)
+		for k, q := range h.Params {
+			if q == p && k < len(args) {
+				return args[k]
+			}
+		}
+	}
+	return v
+}
